@@ -51,9 +51,9 @@ func (c *Ctx) add(cs Case) { c.cases = append(c.cases, cs) }
 // n scales a quick-tier count to the tier.
 func (c *Ctx) n(quick int) int {
 	if c.thor {
-		return quick * 12
+		return quick * 40
 	}
-	return quick
+	return quick * 8
 }
 
 type Report struct {
